@@ -35,6 +35,8 @@ def cases(rng, tier):
 	yield ('t', b'/a/../b', b'h', b'1.1')
 	yield ('t', b'/%2e%2e/x', b'h', b'1.1')
 	yield ('t', b'/a/%c0%ae%c0%ae/b', b'h', b'1.1')
+	for t in (b'*', b'**', b'*a', b'*/a', b'*.', b'http://:pw@h/a', b'http://u@h/a', b'http://u:p@h/a', b'http://h/a#f', b'//h/a'):
+		yield ('t', t, b'h', b'1.1')
 	for n in (1, 2, 3, 4):
 		for t in itertools.product(TOKENS, repeat=n):
 			if tier == 'quick' and n == 4 and rng.random() > 0.08:
@@ -48,16 +50,20 @@ def cases(rng, tier):
 		n = rng.randrange(1, 8)
 		parts = [rng.choice(TOKENS + [b'/', b'/', b'c', b'%41', b'%zz', b'%', b'?q=1', b'#f']) for _ in range(n)]
 		target = b''.join(parts)
-		form = rng.randrange(6)
-		if form == 0:
+		form = rng.randrange(8)
+		if form == 6:
+			target = b'*' + rng.choice([b'', b'*', b'/', b'.', b'a', b'/a', b'%2a']) + (target if rng.random() < 0.5 else b'')
+		elif form == 7:
+			target = rng.choice([b':0@', b'u@', b':@', b'@']) + rng.choice([b'h:443', b'example.com:80', b'[::1]:443'])
+		elif form == 0:
 			target = b'/' + target
 		elif form == 1:
-			target = rng.choice([b'http://', b'https://', b'HTTP://', b'ftp://', b'//', b'http:/', b'http://u@', b'http://u:p@']) + rng.choice([b'example.com', b'[::1]', b'h:81', b'H']) + b'/' + target
+			target = rng.choice([b'http://', b'https://', b'HTTP://', b'ftp://', b'//', b'http:/', b'http://u@', b'http://u:p@', b'http://:p@', b'http://:@', b'http://@', b'http://u:@', b'https://%3a:x@']) + rng.choice([b'example.com', b'[::1]', b'h:81', b'H']) + b'/' + target
 		elif form == 2:
 			target = rng.choice([b'*', b'h:443', b'example.com:80', b'[::1]:443', b'h', b'/'])
 		elif form == 3:
 			target = b'/' + b'/'.join(rng.choice([b'a', b'b', b'%7Eu', b'x%20y', b'caf%C3%A9', b'%E2%82%AC']) for _ in range(rng.randrange(0, 4)))
-		method = b'CONNECT' if form == 2 and rng.random() < 0.5 else rng.choice([b'GET', b'POST', b'OPTIONS'])
+		method = b'CONNECT' if form in (2, 7) and rng.random() < 0.6 else rng.choice([b'GET', b'POST', b'OPTIONS'])
 		yield ('t', target, rng.choice(HOSTS), rng.choice([b'1.1', b'1.1', b'1.0']), method)
 
 
